@@ -46,6 +46,16 @@ CHECKS = {
          'Every combination of object kind (class with method and nested class, function, variable, class with in-module subclass) x re-exporter (package __init__, sibling) x import form (plain, renamed, star) x origin variant (no __all__, __all__ without the object, name also bound by a guarded import) x consumer (from the definer, from the re-exporter, through either module object, star import from either) x docformat is built under every permutation of its sub-modules (thorough: all consumer pairs, 24 schedules; 28 008 executions). Checked per execution: a single registry entry for the object and each member under <re-exporter>.<exported name>, none left under the definer; resolveName of every local name, Class.baseobjects/subclasses, and the href of annotation, class-header and docstring links (by local, old qualified, new qualified and member name) all lead to that object; verdicts equal across schedules. 72 programs also go through the real driver: one page/anchor at the new address, none at the old, registry equal to the in-memory build.',
          'Trusted: the program generator; the link extraction by href; CPython import semantics are not re-validated here (C04 does that).',
          'DESIGN.md section 5, C07'),
+ 'C03': ('exploration',
+         'exhaustive enumeration of definition shapes x placements x docstring layouts (singles, ordered pairs, packages) built from real files; differential against CPython executing the same source',
+         'Every definition shape (def, async def, class, exception classes incl. through local bases and mixins, static/class methods and properties in decorator and old-style form, variables, annotated/chained/tuple assignments, redefinitions of the same or another kind, nested classes, decorated functions, lambdas) x 11 placements (module, class, nested class, taken if/try/with/for bodies at module and class level, function body and __main__ block as negatives) x 12 docstring layouts is written to files, analysed by the real builder and executed by CPython: per namespace the planted names must be documented exactly when CPython binds them, with the kind CPython gives them, the docstring inspect.cleandoc(__doc__) reports, and an inferred literal type that is the actual type. Ordered pairs in one scope (colliding and distinct names), a 40-value literal alphabet and 10 two/three-module packages with cross-module exception bases complete the family.',
+         'Trusted: CPython as oracle; the source generator. Outside the agreed subset and not generated: aliases, bare annotations, instance variables, property setters, else/except/finally/while/match bodies, re-assignment of a def/class name.',
+         'DESIGN.md section 5, C03'),
+ 'C04': ('exploration',
+         'exhaustive enumeration of import/alias statement templates (singles, thorough: ordered pairs) x consumer scopes on a two-root skeleton; differential against a real CPython import of the same files',
+         'A 38-template alphabet (plain / aliased / relative level 1-2 / star imports, imports of packages, sub-modules and re-imported names, multi-target imports, alias assignments through names and module paths) is placed in 9 consumer scopes (module, package __init__, sub-package __init__, module of another root, a class body in each, a nested class body). Each project is first imported by CPython (statements it rejects or that bind a name twice are filtered), then analysed by pydoctor from the same files. Every name bound in the scope and every dotted extension up to 3 parts that CPython evaluates to an ID-carrying object is resolved with resolveName: a returned object must carry the same ID (soundness); names imported directly from their defining module and paths through module aliases must resolve (completeness).',
+         'Trusted: CPython import machinery as oracle; ID docstrings as identity. Self-imports (a module importing itself) count as cycles and are not judged.',
+         'DESIGN.md section 5, C04'),
 }
 
 
